@@ -3,7 +3,13 @@
 // file path of the whole graph.
 //
 // in:  files {path: text}, order [paths], names [full names], exts [[extendee, tag]], paths [paths]
-// out: res {path: {n: [...], x: [...], p: [...]}} with one string per query:
+//      also_weak {path: [import paths]} (optional).  When present every file is handed to the
+//      compiler as a FileDescriptorProto (parsed from its text first) and the listed imports get
+//      an entry in weak_dependency in addition to what the text says, which is the only way to
+//      have an import that is public and weak at the same time.
+// out: res {path: {n: [...], x: [...], p: [...], m: [...], u: [...], e: [...]}} with one string per query
+//      (n FindDescriptorByName, x FindExtensionByNumber, p FindFileByPath, m FindMessageByName,
+//      u FindMessageByURL, e FindExtensionByName; m, u, e one per entry of names):
 //      ""                   protoregistry.NotFound
 //      "<file>|<element>"   found: path of the file that holds the element, full name (or path)
 //      "ERR:<text>"         any other error
@@ -12,10 +18,12 @@ package main
 import (
 	"context"
 	"errors"
+	"strings"
 
 	"github.com/bufbuild/protocompile"
 	"github.com/bufbuild/protocompile/experimental/verifharness/vhlib"
 	"github.com/bufbuild/protocompile/linker"
+	"github.com/bufbuild/protocompile/parser"
 	"github.com/bufbuild/protocompile/reporter"
 	"google.golang.org/protobuf/reflect/protoreflect"
 	"google.golang.org/protobuf/reflect/protoregistry"
@@ -64,6 +72,39 @@ func visCase(in map[string]any) map[string]any {
 		Resolver: &protocompile.SourceResolver{Accessor: protocompile.SourceAccessorFromMap(files)},
 		Reporter: rep,
 	}
+	if aw, ok := in["also_weak"].(map[string]any); ok {
+		comp.Resolver = protocompile.ResolverFunc(func(path string) (protocompile.SearchResult, error) {
+			text, ok := files[path]
+			if !ok {
+				return protocompile.SearchResult{}, protoregistry.NotFound
+			}
+			h := reporter.NewHandler(nil)
+			node, err := parser.Parse(path, strings.NewReader(text), h)
+			if err != nil {
+				return protocompile.SearchResult{}, err
+			}
+			pr, err := parser.ResultFromAST(node, true, h)
+			if err != nil {
+				return protocompile.SearchResult{}, err
+			}
+			fd := pr.FileDescriptorProto()
+			fd.SourceCodeInfo = nil
+			extra, _ := aw[path].([]any)
+			for _, x := range extra {
+				dep, _ := x.(string)
+				for i, d := range fd.Dependency {
+					already := false
+					for _, w := range fd.WeakDependency {
+						already = already || int(w) == i
+					}
+					if d == dep && !already {
+						fd.WeakDependency = append(fd.WeakDependency, int32(i))
+					}
+				}
+			}
+			return protocompile.SearchResult{Proto: fd}, nil
+		})
+	}
 	out, err := comp.Compile(context.Background(), order...)
 	if err != nil || len(errs) > 0 || len(out) != len(order) {
 		if err != nil {
@@ -106,7 +147,31 @@ func visCase(in map[string]any) map[string]any {
 				ps[k] = answer("", "", err)
 			}
 		}
-		res[p] = map[string]any{"n": ns, "x": xs, "p": ps}
+		ms := make([]string, len(names))
+		us := make([]string, len(names))
+		es := make([]string, len(names))
+		for k, n := range names {
+			mt, err := r.FindMessageByName(protoreflect.FullName(n))
+			if err == nil {
+				ms[k] = answer(mt.Descriptor().ParentFile().Path(), string(mt.Descriptor().FullName()), nil)
+			} else {
+				ms[k] = answer("", "", err)
+			}
+			mt, err = r.FindMessageByURL("type.googleapis.com/" + n)
+			if err == nil {
+				us[k] = answer(mt.Descriptor().ParentFile().Path(), string(mt.Descriptor().FullName()), nil)
+			} else {
+				us[k] = answer("", "", err)
+			}
+			xt, err := r.FindExtensionByName(protoreflect.FullName(n))
+			if err == nil {
+				td := xt.TypeDescriptor()
+				es[k] = answer(td.ParentFile().Path(), string(td.FullName()), nil)
+			} else {
+				es[k] = answer("", "", err)
+			}
+		}
+		res[p] = map[string]any{"n": ns, "x": xs, "p": ps, "m": ms, "u": us, "e": es}
 	}
 	return map[string]any{"res": res}
 }
